@@ -100,6 +100,10 @@ def run(tier, seed):
                 ck.fail('history log field lines contradict the property', rp | {'expected': specf[:5], 'actual': real[2 + nd + 3:][:5]}, 'fields')
             if real != model:
                 ck.disagree('parse_hlog_data differs from model', rp | {'impl': real[-4:], 'model': model[-4:]})
+        # ---- a header file that is rewritten between two decodes in one process
+        synth = [pth for nm, pth in loader_files if nm.startswith('synth') and os.path.exists(pth)]
+        hdata = bytes((7 * i + 1) % 256 for i in range(24))
+        iod.check_rewritten_table_file(ck, 'flds', synth, lambda pth: hlog.parse_hlog_data(memoryview(hdata), pth), rng, 12 if thorough else 4)
     finally:
         shutil.rmtree(tmp, ignore_errors=True)
     return ck.finish(RULE, TRUSTED, ASSUME)
